@@ -262,7 +262,7 @@ def read_lines(path, wanted):
 def find_case(cases_path, t):
     with open(cases_path) as f:
         for line in f:
-            if ('"t":%d,' % t) in line or ('"t":%d}' % t) in line:
+            if ('"t":%d,' % t) in line or ('"t":%d}' % t) in line or ('"t": %d,' % t) in line or ('"t": %d}' % t) in line:
                 c = json.loads(line)
                 if c.get("t") == t:
                     return c
